@@ -362,6 +362,7 @@ func runC16(c *Ctx) {
 		c.Check("C16-R4", "key-path-branch-constant:"+name, fn.Pos(), ok && okIdx, name+" does not build the path with Branch="+want+" and the given index")
 	}
 
+	checkIssuerAddrType(c, "C16-R4")
 	// ---------- R5 ----------
 	if rec := walletFn(c, "C16-R5", "recovery"); rec != nil {
 		n := 0
